@@ -53,8 +53,13 @@ def jvp_check(ctx, name, f, x, tol_fd, tol_model=None, model=None, cls=None, h=N
     h = h or (1e-6 if x.dtype == torch.float64 else 2e-3)
     with torch.no_grad():
         fd = (objective(x.detach() + h * v) - objective(x.detach() - h * v)) / (2 * h)
+        fd_half = (objective(x.detach() + 0.5 * h * v) - objective(x.detach() - 0.5 * h * v)) / h
     scale = max(1.0, abs(fd), abs(ad))
-    if abs(ad - fd) > tol_fd * scale:
+    if abs(fd - fd_half) > max(10 * tol_fd, 0.2) * max(1.0, abs(fd_half)):
+        # the two finite differences disagree with each other: the segment x +- h v crosses a kink / jump of the function (a documented
+        # non-smooth point such as a hue wrap, an arg-max switch or a threshold); finite differences cannot judge autograd there
+        ctx.count('skipped_near_nonsmooth_point/' + name)
+    elif abs(ad - fd) > tol_fd * scale:
         ctx.violation('%s: autograd directional derivative %.8g differs from the central finite difference %.8g' % (name, ad, fd),
                       {'entry': name, 'autograd': ad, 'finite_difference': fd, 'x': x.detach().reshape(-1).tolist()[:12]},
                       dict(cls or {}, entry=name, what='grad_mismatch'))
@@ -185,9 +190,19 @@ def run(ctx):
                   tri + rnd(3, 3, lo=-0.05, hi=0.05, dtype=torch.float32), 3e-2)
         # ---- colour conversions (away from thresholds)
         col = rnd(1, 3, 2, 2, lo=0.15, hi=0.9, dtype=torch.float32)
+        # hue is singular on the grey axis and kinked where two channels tie (arg-max switch, hue wrap): well-separated channels for HSV
+        hcol = torch.zeros(1, 3, 2, 2)
+        for a_ in range(2):
+            for b_ in range(2):
+                lo_ = rng.uniform(0.15, 0.3); mid_ = lo_ + rng.uniform(0.12, 0.25); hi_ = mid_ + rng.uniform(0.15, 0.3)
+                perm = [lo_, mid_, hi_]
+                rng.shuffle(perm)
+                hcol[0, :, a_, b_] = torch.tensor(perm)
+        hsv_in = CC.rgb_to_hsv(hcol).detach()
         for nm, mdl in (('rgb_2_ycrcb', None), ('ycrcb_2_rgb', None), ('rgb_to_linear_rgb', None), ('linear_rgb_to_rgb', None),
                         ('linear_rgb_to_xyz', None), ('xyz_to_linear_rgb', None), ('rgb_to_hsv', None), ('hsv_to_rgb', None)):
-            jvp_check(ctx, 'color/' + nm, lambda x, nm=nm: getattr(CC, nm)(x), col.clone(), 3e-2)
+            xin = hcol.clone() if nm == 'rgb_to_hsv' else hsv_in.clone() if nm == 'hsv_to_rgb' else col.clone()
+            jvp_check(ctx, 'color/' + nm, lambda x, nm=nm: getattr(CC, nm)(x), xin, 3e-2, h=5e-4 if 'hsv' in nm else None)
         jvp_check(ctx, 'color/srgb_to_lab', lambda x: CC.srgb_to_lab(x), rnd(3, 2, 2, lo=0.15, hi=0.9, dtype=torch.float32), 3e-2)
         # boundary colours: exact black / white / saturated channels are valid inputs and smooth points of these conversions
         # (torch.where back-propagates 0 * d(unselected branch): a power with an infinite slope at 0 turns that into NaN)
